@@ -22,6 +22,9 @@ CHECKS = {
  "C17": dict(section="6/C17", technique=TLA + "trace validation of RMAX training runs recorded through RMAXEventListener against the bookkeeping / optimistic-model machine of spec/C17_RMax.tla, plus exhaustive MC of all experience histories on tiny MDPs",
    text="TLC (MC) explores every experience history of tiny MDPs for thresholds 1-2 with Bookkeeping, ModelIsReal, NeverAboveVmax, UnknownExactlyVmax, KnownBellman invariants and ModelFrozen / QMonotone action properties; (trace mode) every recorded step of real RMAX.train_on runs must be a real transition with the MDP's reward, counts follow the first-m-samples rule, and the returned Q-values / policy are judged clause by clause (<= Vmax, unknown pairs exactly Vmax, empirical Bellman residual within tolerance, greedy policy).",
    note="Logged values are scaled integers with derived tolerances; exact optimistic fixed point only for <=3 non-absorbing states; action selection is DRIFT-level. Trusted: TLC, the recording listener."),
+ "C11": dict(section="6/C11", technique=TLA + "spec->code replay of every operation chain of spec/C11_Dist.tla on every concrete distribution kind, plus TLC validation of recorded sampling traces (each draw an enabled Sample, equally seeded runs equal)",
+   text="TLC explores every chain of <=2 (3 in thorough) operations (marginalize, chain, condition, joint, scaled mixture, conjunction, normalize, expectation, softmax shift, Sample) over measures with exact rational weights incl. zero entries and unnormalised totals, checks the probability laws as invariants written independently of the folds, and emits the exact measure after every step; the chains are replayed on DictDistribution, from_pairs, Uniform, Deterministic, Softmax and TableDistribution objects and items/prob/len/expectation are compared after each step; sampling traces from seeded generators are validated by TLC.",
+   note="Events are atoms or pairs; <=3-4 events, weights 0..3; softmax scores are multiples of ln 2 so probabilities are exact rationals. Uniform over a set and TableDistribution.prob of tuple keys are DRIFT-level. Trusted: TLC, projection code; every emitted measure cross-checked against an independent Fraction oracle."),
 }
 NOT_APPLICABLE = {
  "C19": "soft Bellman fixed point needs exp/log over reals; TLA+/TLC has bounded integers only (DESIGN.md section 10)",
